@@ -98,22 +98,87 @@ Proof.
   intros H. inversion H as [|? ? _ H2]; subst. inversion H2 as [|? ? [c Hc] _]; subst. discriminate.
 Qed.
 
-(* after fixes/C18-exploded-list-index-iadd.patch *)
-Theorem setitem_int_patched_spec l i v :
+(* plain-list semantics, characterised *)
+Theorem setitem_int_listsem_spec l i v :
   let j := if i <? 0 then i + len l else i in
-  setitem_int_patched l i v =
+  setitem_int_listsem l i v =
   if (j <? 0) || (len l <=? j) then None
   else Some (firstn (Z.to_nat j) l ++ explode [v] ++ skipn (Z.to_nat (j + 1)) l).
 Proof.
-  cbn zeta. unfold setitem_int_patched.
+  cbn zeta. unfold setitem_int_listsem.
   set (j := if i <? 0 then i + len l else i).
   destruct ((j <? 0) || (len l <=? j)) eqn:E; [reflexivity|].
   apply orb_false_iff in E. destruct E as [E1 E2].
   f_equal. apply (setitem_int_replaces l j v). lia.
 Qed.
 
-Theorem iadd_patched_invariant l vs : all_single l -> all_single (el_iadd_patched l vs).
+Theorem iadd_listsem_invariant l vs : all_single l -> all_single (el_iadd_listsem l vs).
 Proof. intros H. apply all_single_app; [assumption | apply explode_all_single]. Qed.
+
+(* lst[i] = v for EVERY int index (round 6): what `slice(i, i + 1)` makes of it.
+   i >= len appends, 0 <= i < len replaces, i = -1 inserts before the last item,
+   -len <= i < -1 replaces, i < -len prepends - no index ever raises. *)
+Lemma firstn_len {T} (l : list T) : firstn (Z.to_nat (len l)) l = l.
+Proof. unfold len. rewrite Nat2Z.id. apply firstn_all. Qed.
+
+Lemma skipn_len {T} (l : list T) : skipn (Z.to_nat (len l)) l = [].
+Proof. unfold len. rewrite Nat2Z.id. apply skipn_all. Qed.
+
+Lemma len_nonneg {T} (l : list T) : 0 <= len l.
+Proof. unfold len. lia. Qed.
+
+Theorem setitem_int_total l i v :
+  setitem_int l i v =
+  if len l <=? i then l ++ explode [v]
+  else if 0 <=? i then firstn (Z.to_nat i) l ++ explode [v] ++ skipn (Z.to_nat (i + 1)) l
+  else if i =? -1 then firstn (Z.to_nat (len l - 1)) l ++ explode [v] ++ skipn (Z.to_nat (len l - 1)) l
+  else if - len l <=? i then
+    firstn (Z.to_nat (i + len l)) l ++ explode [v] ++ skipn (Z.to_nat (i + len l + 1)) l
+  else explode [v] ++ l.
+Proof.
+  pose proof (len_nonneg l) as Hn.
+  destruct (len l <=? i) eqn:E1.
+  { apply Z.leb_le in E1. unfold setitem_int, list_set_slice, adj_index.
+    destruct (i <? 0) eqn:A; [lia|]. destruct (i + 1 <? 0) eqn:B; [lia|].
+    rewrite (Z.min_r i) by lia. rewrite (Z.min_r (i + 1)) by lia. rewrite Z.max_id.
+    now rewrite firstn_len, skipn_len, app_nil_r. }
+  apply Z.leb_gt in E1.
+  destruct (0 <=? i) eqn:E2.
+  { apply Z.leb_le in E2. apply setitem_int_replaces. lia. }
+  apply Z.leb_gt in E2.
+  destruct (i =? -1) eqn:E3.
+  { apply Z.eqb_eq in E3. subst i. unfold setitem_int, list_set_slice, adj_index.
+    change (-1 <? 0) with true. change (-1 + 1) with 0. change (0 <? 0) with false. cbn iota.
+    rewrite (Z.min_l 0) by lia. rewrite (Z.max_l (Z.max 0 (-1 + len l)) 0) by lia.
+    replace (Z.to_nat (Z.max 0 (-1 + len l))) with (Z.to_nat (len l - 1)) by lia. reflexivity. }
+  apply Z.eqb_neq in E3.
+  destruct (- len l <=? i) eqn:E4.
+  { apply Z.leb_le in E4. apply setitem_int_replaces_negative. lia. }
+  apply Z.leb_gt in E4. unfold setitem_int, list_set_slice, adj_index.
+  destruct (i <? 0) eqn:A; [|lia]. destruct (i + 1 <? 0) eqn:B; [|lia].
+  rewrite (Z.max_l 0 (i + len l)) by lia. rewrite (Z.max_l 0 (i + 1 + len l)) by lia.
+  reflexivity.
+Qed.
+
+(* so the code agrees with plain-list semantics exactly on -len <= i < len, i <> -1 *)
+Corollary setitem_int_vs_list l i v r :
+  setitem_int_listsem l i v = Some r -> i <> -1 -> setitem_int l i v = r.
+Proof.
+  intros H Hi. pose proof (setitem_int_listsem_spec l i v) as Hs. cbn zeta in Hs. rewrite Hs in H. clear Hs.
+  pose proof (len_nonneg l) as Hn. rewrite setitem_int_total.
+  destruct (i <? 0) eqn:A.
+  - apply Z.ltb_lt in A.
+    destruct ((i + len l <? 0) || (len l <=? i + len l)) eqn:B; [discriminate|]. injection H as <-.
+    apply orb_false_iff in B. destruct B as [B1 B2]. apply Z.ltb_ge in B1.
+    destruct (len l <=? i) eqn:C; [apply Z.leb_le in C; lia|].
+    destruct (0 <=? i) eqn:D; [apply Z.leb_le in D; lia|].
+    destruct (i =? -1) eqn:F; [apply Z.eqb_eq in F; lia|].
+    destruct (- len l <=? i) eqn:G; [reflexivity | apply Z.leb_gt in G; lia].
+  - apply Z.ltb_ge in A.
+    destruct ((i <? 0) || (len l <=? i)) eqn:B; [discriminate|]. injection H as <-.
+    apply orb_false_iff in B. destruct B as [B1 B2]. rewrite B2.
+    destruct (0 <=? i) eqn:D; [reflexivity | apply Z.leb_gt in D; lia].
+Qed.
 
 (* the text of the list after extend/append is the old text plus the new text *)
 Theorem el_extend_text l vs :
